@@ -56,7 +56,7 @@ var (
 func (c07) Describe() sim.Description {
 	return sim.Description{
 		Level: "exploration",
-		Rule: "one scenario per run: a non-terminating guest of a tape-chosen cycle shape (loop, nested loops, br_table re-entry, loop around bounded recursion, self return_call, mutual return_call, return_call_indirect, call_indirect in a loop, loop entered from a host callback, tail call into a looping function; with tape-chosen padding) " +
+		Rule: "classes parked / recursion / start-function: a guest parked in memory.atomic.wait, recursing without loops, or spinning in its start-section function (inside InstantiateModule); otherwise: one scenario per run: a non-terminating guest of a tape-chosen cycle shape (loop, nested loops, br_table re-entry, loop around bounded recursion, self return_call, mutual return_call, return_call_indirect, call_indirect in a loop, loop entered from a host callback, tail call into a looping function; with tape-chosen padding) " +
 			"x yielding (host call in the cycle) or pure spin x cause (cancel, deadline, CloseWithExitCode from another goroutine, Runtime.Close) x moment (context already done at call time, at the k-th host callback, or from a second goroutine after the guest signalled entry). " +
 			"Oracle: the call returns (supervisor watchdog 30 s otherwise: hang = violation), the error is *sys.ExitError with the code of the cause, IsClosed() is true, and for yielding guests the number of host callbacks after the closed flag became visible is at most the number of host-call sites in the cycle (derived from the plan). " +
 			"Non-trivial: cause fired while the guest was inside the cycle (not before the call); distinct = (shape, padding, yield, cause, moment)",
